@@ -129,7 +129,8 @@ def generate(prop, rng, index, tier):
             ops.append(["NEW"])
             nparsers += 1
         elif r < 0.5:
-            ops.append(["PARSE", rng.randrange(nparsers), d])
+            # the same document may come back later with some blank lines in front of it
+            ops.append(["PARSE", rng.randrange(nparsers), d, rng.choice([0, 0, 0, 1, 2, 5])])
         elif r < 0.62:
             ops.append(["PARSE_BAD", rng.randrange(nparsers), d,
                         {"op": rng.choice(["delete", "unbalance-open", "unbalance-close", "quote-open", "garbage-char",
@@ -213,23 +214,23 @@ def doc_text(doc):
 # ------------------------------------------------------------------------------------------------
 # oracles
 # ------------------------------------------------------------------------------------------------
-def _check_value(node, led, path, bad):
+def _check_value(node, led, path, bad, off=0):
     """node: ExpressionNode; led: ledger value entry."""
-    if getattr(node, "lineno", None) != led["line"]:
-        bad.append("%s: lineno %r, true line %d" % (path, getattr(node, "lineno", None), led["line"]))
+    if getattr(node, "lineno", None) != led["line"] + off:
+        bad.append("%s: lineno %r, true line %d" % (path, getattr(node, "lineno", None), led["line"] + off))
     v = getattr(node, "value", None)
     if "items" in led:
         if not isinstance(v, list) or len(v) != len(led["items"]):
             return "structure"
         for i, (sub, subled) in enumerate(zip(v, led["items"])):
-            r = _check_value(sub, subled, "%s[%d]" % (path, i), bad)
+            r = _check_value(sub, subled, "%s[%d]" % (path, i), bad, off)
             if r:
                 return r
     return None
 
 
-def check_tree(tree, ledger, nodes):
-    """Returns (list of line mismatches, structural-mismatch flag)."""
+def check_tree(tree, ledger, nodes, off=0):
+    """Returns (list of line mismatches, structural-mismatch flag); `off` = blank lines put in front of the text."""
     bad = []
     cmds = getattr(tree, "commands", None)
     if cmds is None or len(cmds) != len(ledger):
@@ -237,16 +238,17 @@ def check_tree(tree, ledger, nodes):
     for ci, (cn, led, node) in enumerate(zip(cmds, ledger, nodes)):
         if cn.command != node["cmd"]:
             return bad, True
-        if cn.lineno != led["line"]:
-            bad.append("command %d (%s): lineno %r, true line %d" % (ci, node["cmd"], cn.lineno, led["line"]))
+        if cn.lineno != led["line"] + off:
+            bad.append("command %d (%s): lineno %r, true line %d" % (ci, node["cmd"], cn.lineno, led["line"] + off))
         if len(cn.arguments) != len(led["arglist"]):
             return bad, True
         for an, aled in zip(cn.arguments, led["arglist"]):
             if an.name != aled["name"]:
                 return bad, True
-            if an.lineno != aled["line"]:
-                bad.append("argument %s of command %d: lineno %r, true line %d" % (an.name, ci, an.lineno, aled["line"]))
-            if _check_value(an.value, aled["value"], "value of %s of command %d" % (an.name, ci), bad):
+            if an.lineno != aled["line"] + off:
+                bad.append("argument %s of command %d: lineno %r, true line %d" % (an.name, ci, an.lineno,
+                                                                                  aled["line"] + off))
+            if _check_value(an.value, aled["value"], "value of %s of command %d" % (an.name, ci), bad, off):
                 return bad, True
     return bad, False
 
@@ -316,6 +318,10 @@ def execute(sc):
                     log.emit("parse-bad", parser=k, outcome=outcome)
                     continue
                 prev = list(hist[k])
+                shift = int(op[3]) if len(op) > 3 else 0
+                if shift:
+                    text = (doc["layout"].get("eol") or "\n") * shift + text
+                    res.probe("document parsed again with blank lines in front")
                 try:
                     tree = parsers[k].parse(text)
                 except SimAbort:
@@ -325,8 +331,8 @@ def execute(sc):
                     res.observe("valid rendering did not parse (C10's business): %s" % type(exc).__name__)
                     hist[k].append("raise")
                     continue
-                bad, structural = check_tree(tree, ledger, nodes)
-                log.emit("parse", parser=k, doc=op[2], mismatches=len(bad), structural=structural)
+                bad, structural = check_tree(tree, ledger, nodes, shift)
+                log.emit("parse", parser=k, doc=op[2], shift=shift, mismatches=len(bad), structural=structural)
                 if structural:
                     res.observe("parse tree structure differs from the rendered program (C10's business)")
                 state = "first-parse" if not prev else ("after-failed-parse" if prev[-1].startswith("bad:syntax")
@@ -517,7 +523,7 @@ def shrink_candidates(sc):
 
 
 def sample(sc):
-    out = {"history": [op[:3] for op in sc["ops"]], "documents": []}
+    out = {"history": [op[:4] if op[0] == "PARSE" else op[:3] for op in sc["ops"]], "documents": []}
     for d in sc["docs"][:2]:
         try:
             text, ledger, nodes, info = doc_text(d)
